@@ -953,3 +953,227 @@ def _s(s):
 
 DYN_GRAPHS = ["graph.tree_likelihood", "graph.joint_parameter_kinds", "graph.mg94", "graph.compound_gamma_dirichlet",
               "graph.rate_transforms"]
+
+
+# ================================================================================================
+# histories: public update operations interleaved with evaluations, replayed on REAL objects
+# ================================================================================================
+import math
+
+
+def _tensor_of(value, like=None):
+    t = torch.tensor(value)
+    if like is not None and t.dtype != like.dtype and like.dtype.is_floating_point:
+        t = t.to(like.dtype)
+    return t
+
+
+def _perturb(old, domain, rng):
+    old = old.detach().clone()
+    n = torch.tensor([rng.gauss(0.0, 1.0) for _ in range(old.numel())], dtype=torch.get_default_dtype()).reshape(old.shape)
+    if domain == "real":
+        return old + 0.5 * n
+    if domain == "pos":
+        return old * torch.exp(0.3 * n)
+    if domain == "unit":
+        return torch.sigmoid(torch.log(old) - torch.log1p(-old) + 0.5 * n)
+    if domain == "simplex":
+        return torch.softmax(torch.log(old) + 0.3 * n, -1)
+    if domain == "scale":
+        return old * math.exp(0.2 * rng.gauss(0.0, 1.0))
+    raise ValueError(domain)
+
+
+class _rng_frozen:
+    """run a block with a given torch RNG seed and restore the global RNG afterwards"""
+
+    def __init__(self, seed):
+        self.seed = seed
+
+    def __enter__(self):
+        self.st = torch.random.get_rng_state()
+        torch.manual_seed(self.seed)
+
+    def __exit__(self, *exc):
+        torch.random.set_rng_state(self.st)
+
+
+def _evaluate(s, label, seed=12345):
+    """('ok', value) or ('exc', type name)"""
+    try:
+        with _rng_frozen(seed):
+            v = s.evals[label]()
+        if isinstance(v, torch.Tensor):
+            v = v.detach().clone()
+        elif isinstance(v, (tuple, list)):
+            v = [x.detach().clone() if isinstance(x, torch.Tensor) else x for x in v]
+        return ("ok", v)
+    except Exception as e:
+        return ("exc", type(e).__name__ + ": " + str(e)[:160])
+
+
+def _fmt(v):
+    if isinstance(v, torch.Tensor):
+        return v.flatten()[:6].tolist()
+    if isinstance(v, (list, tuple)):
+        return [_fmt(x) for x in v[:3]]
+    return v
+
+
+def compare_with_fresh(s, labels, step):
+    """evaluate `labels` on the live graph and on a freshly built copy holding the same base-parameter values"""
+    out = []
+    fresh = build(s.name, s.state())
+    for lab in labels:
+        a = _evaluate(s, lab)
+        b = _evaluate(fresh, lab)
+        if a[0] == "exc" and b[0] == "exc":
+            continue  # the evaluation itself is broken for reasons outside C11 (same failure on a fresh copy)
+        if a[0] != b[0]:
+            out.append({"step": step, "eval": lab, "kind": "raises" if a[0] == "exc" else "fresh-raises", "live": _fmt(a[1]), "fresh": _fmt(b[1])})
+        elif not heap.same_value(a[1], b[1], ATOL, ATOL):
+            out.append({"step": step, "eval": lab, "kind": "stale", "live": _fmt(a[1]), "fresh": _fmt(b[1])})
+    return out
+
+
+def apply_op(s, op, step=0):
+    """apply one operation through the public interface; returns list of discrepancies (dicts)"""
+    kind = op["op"]
+    if kind == "eval":
+        labels = list(s.evals) if op.get("what", "*") == "*" else list(op["what"])
+        return compare_with_fresh(s, [l for l in labels if l in s.evals], step)
+    try:
+        if kind == "assign":
+            t = s.target(op["target"])
+            t.tensor = _tensor_of(op["value"], t.tensor)
+        elif kind == "requires_grad":
+            s.target(op["target"]).requires_grad = bool(op["value"])
+        elif kind in ("rsample", "sample"):
+            with _rng_frozen(op.get("seed", 1)):
+                getattr(s.dists[op["dist"]], kind)(torch.Size(op.get("shape", [])))
+        elif kind == "mcmc":
+            from torchtree.inference.mcmc import operator as mop
+            t = s.target(op["target"])
+            if op["operator"] == "scaler":
+                o = mop.ScalerOperator(None, [t], 1.0, 0.24, 0.5)
+            else:
+                o = mop.SlidingWindowOperator(None, [t], 1.0, 0.24, 0.5)
+            with _rng_frozen(op.get("seed", 1)):
+                o.step()
+            if op.get("mid_eval"):
+                d = compare_with_fresh(s, [l for l in op["mid_eval"] if l in s.evals], step)
+                if d:
+                    return d
+            if op.get("accept", False):
+                o.accept()
+            else:
+                o.reject()
+        elif kind == "optim":
+            ps = [s.params[n] for n in op["targets"]]
+            for p in ps:
+                p.requires_grad = True
+            loss = s.evals[op["loss"]]()
+            loss = loss.sum() if isinstance(loss, torch.Tensor) else sum(x.sum() for x in loss)
+            opt = torch.optim.SGD([p.tensor for p in ps], lr=1.0)
+            opt.zero_grad()
+            loss.backward()
+            gmax = max([float(p.tensor.grad.abs().max()) if p.tensor.grad is not None else 0.0 for p in ps] + [1e-12])
+            for g in opt.param_groups:
+                g["lr"] = op.get("step", 0.01) / gmax
+            opt.step()                       # in-place optimiser step ...
+            for p in ps:
+                p.fire_parameter_changed()   # ... followed by the change notification (what Optimizer._run does)
+            for p in ps:
+                p.requires_grad = False
+        else:
+            raise ValueError("unknown op %r" % kind)
+    except Exception as e:
+        return [{"step": step, "op": op, "kind": "update-raises", "exception": type(e).__name__ + ": " + str(e)[:200],
+                 "where": traceback.format_exc().strip().splitlines()[-3:-1]}]
+    return []
+
+
+def run_history(name, ops, init=None, stop_at_first=True):
+    """drive the real objects of scenario `name` through `ops`; returns (discrepancies, scenario)"""
+    s = build(name, init)
+    found = []
+    for i, op in enumerate(ops):
+        d = apply_op(s, op, i)
+        found.extend(d)
+        if d and stop_at_first:
+            break
+    return found, s
+
+
+def gen_history(name, seed, length, optim=True):
+    """seeded random history for scenario `name` (values depend on the evolving state, so it is generated by
+    running it); returns the list of JSON-able ops"""
+    rng = random.Random("%s/%d" % (name, seed))
+    s = build(name)
+    ops = []
+    assignable = [n for n in list(s.params) + list(s.derived) if s.domains.get(n) not in (None, "fixed")]
+    one_d = [n for n in assignable if s.target(n).tensor.dim() == 1 and s.domains[n] in ("pos", "real")]
+    labels = list(s.evals)
+    scalar_losses = [l for l in labels if l.endswith(".__call__")]
+    opt_targets = [n for n in s.params if s.domains[n] in ("pos", "real") and s.params[n].tensor.dtype.is_floating_point]
+    for i in range(length):
+        r = rng.random()
+        op = None
+        if r < 0.45 and assignable:
+            n = rng.choice(assignable)
+            op = {"op": "assign", "target": n, "value": _perturb(s.target(n).tensor, s.domains[n], rng).tolist()}
+        elif r < 0.80 and labels:
+            k = rng.choice([1, 1, 2, len(labels)])
+            op = {"op": "eval", "what": rng.sample(labels, min(k, len(labels)))}
+        elif r < 0.86 and s.dists:
+            op = {"op": rng.choice(["rsample", "sample"]), "dist": rng.choice(list(s.dists)), "seed": rng.randrange(10 ** 6), "shape": []}
+        elif r < 0.94 and one_d:
+            n = rng.choice(one_d)
+            op = {"op": "mcmc", "operator": "scaler" if s.domains[n] == "pos" else rng.choice(["scaler", "slide"]), "target": n,
+                  "seed": rng.randrange(10 ** 6), "accept": rng.random() < 0.5,
+                  "mid_eval": rng.sample(labels, min(2, len(labels))) if rng.random() < 0.7 else []}
+        elif optim and scalar_losses and opt_targets and not s.stochastic:
+            op = {"op": "optim", "targets": rng.sample(opt_targets, min(2, len(opt_targets))), "loss": rng.choice(scalar_losses), "step": 0.01}
+        if op is None:
+            continue
+        ops.append(op)
+        d = apply_op(s, op, i)
+        if d:
+            break   # the history up to here already exhibits a failure
+    ops.append({"op": "eval", "what": "*"})
+    return ops
+
+
+def minimise_history(name, ops, init=None):
+    """greedy shrink of a failing history (keeps it failing on the real objects)"""
+    def fails(o):
+        try:
+            return bool(run_history(name, o, init)[0])
+        except Exception:
+            return False
+    if not fails(ops):
+        return ops
+    cur = list(ops)
+    i = 0
+    while i < len(cur) and len(cur) > 1:
+        cand = cur[:i] + cur[i + 1:]
+        if fails(cand):
+            cur = cand
+        else:
+            i += 1
+    return cur
+
+
+def replay_history(args):
+    """custom replay (vt.replay): drive REAL objects through the recorded operation sequence.
+    returns (ok, msg); ok=False means the failure was reproduced."""
+    kind = args.get("kind", "history")
+    if kind == "history":
+        found, s = run_history(args["graph"], args["ops"], args.get("init"))
+        if found:
+            return False, "graph %s: %s" % (args["graph"], found[:3])
+        return True, "graph %s: %d operations, every evaluation equals a freshly built copy" % (args["graph"], len(args["ops"]))
+    fn = globals().get("_replay_" + kind)
+    if fn is None:
+        return True, "unknown replay kind %r" % kind
+    return fn(args)
